@@ -9,7 +9,8 @@
   "the input ran out in the middle of a symbol" is final (`Pending.stuck`); the only places where one C call of
   `lzma_decode` stops and a later one resumes are the three output points SEQ_LITERAL_WRITE, SEQ_SHORTREP, SEQ_COPY
   (`Pending.litWrite/shortRep/copy`), exactly as in the C code, incl. what is recomputed per call
-  (`eopm_is_valid`, `might_finish_without_eopm`, the clamped `dict.limit`) and the end-of-call checks.
+  (`eopm_is_valid` = unknown size or the remembered `coder->eopm_is_valid`, `might_finish_without_eopm`, the clamped
+  `dict.limit`) and the end-of-call checks.
   The non-resumable ("fast") loop of the C code and the x86-64 assembly macros compute the same function as the
   resumable one on every input for which they are entered; the model has one loop.
 
@@ -192,6 +193,8 @@ structure St where
   /-- `uncompressed_size`; `none` = LZMA_VLI_UNKNOWN -/
   uncomp : Option Nat
   allowEopm : Bool
+  /-- `coder->eopm_is_valid`: the known size has been reached and only the end marker may follow (remembered across calls) -/
+  eopmValid : Bool
   pending : Pending
   -- lzma_dict
   dp : DictPos
@@ -439,6 +442,7 @@ def symLoop : Nat → Bool → Bool → M Unit
         let (fin, allow) ← (fun s : St => EStateM.Result.ok (s.code == 0, s.allowEopm) s)
         if fin then throw .streamEnd                -- rc_is_finished
         if !allow then throw .dataError
+        modify fun s => { s with eopmValid := true }
         pure true
       else pure eopmValid : M Bool)
     let act ← decodeSymbol eopmValid
@@ -468,7 +472,7 @@ def lzmaCall (s : St) : Ret × St :=
   | .ok true s =>
     let callLimit := s.dp.limit
     let start := s.hist.size
-    let eopmValid := s.uncomp.isNone
+    let eopmValid := s.uncomp.isNone || s.eopmValid
     -- limit the output to the known uncompressed size
     let (s, mightFinish) :=
       match s.uncomp with
@@ -531,7 +535,7 @@ def St.initLzma1 (props : Props) (dictSize : Nat) (uncomp : Option Nat) (allowEo
   let s : St :=
     { inp := input, inPos := 0, range := UINT32_MAX, code := 0, initLeft := 5, probs := #[],
       state := 0, rep0 := 0, rep1 := 0, rep2 := 0, rep3 := 0, lc := 0, lp := 0, pb := 0,
-      uncomp := uncomp, allowEopm := allowEopm, pending := .none,
+      uncomp := uncomp, allowEopm := allowEopm, eopmValid := false, pending := .none,
       dp := DictPos.init dictSize preset.length, hist := ByteArray.mk tail.toArray, outBase := tail.length, l2 := {} }
   s.resetLzma props
 
